@@ -3,7 +3,7 @@
 copies /tmp/mut_<Cxx>_out/{patch.diff,demo*,meta.json,confirm.log} to /verif/seeded/<name>/ and augments meta.json"""
 import json, os, shutil, sys, glob
 pid, name, det, summary = sys.argv[1:5]
-src = f'/tmp/mut_{pid}_out'
+src = f'/tmp/{os.environ.get("MUT_PREFIX", "mut_")}{pid}_out'
 dst = os.path.join(os.path.dirname(os.path.dirname(os.path.abspath(__file__))), 'seeded', name)
 os.makedirs(dst, exist_ok=True)
 for f in glob.glob(src + '/patch.diff') + glob.glob(src + '/demo*') + glob.glob(src + '/confirm.log'):
